@@ -451,6 +451,14 @@ impl RequestHandlerPipeline {
         // We iterate in reverse order because closer to the request handler
         // we are less likely to encounter borrowing issues that relate to some of
         // our synthetic types.
+        let copy_trait = {
+            let c = crate::compiler::framework_rustdoc::resolve_type_path(
+                "core::marker::Copy",
+                krate_collection,
+            );
+            let Type::Path(c) = c else { unreachable!() };
+            c
+        };
         'stage_iter: for stage in stages.iter_mut().rev() {
             let ids: Vec<_> = stage
                 .pre_processing_ids
@@ -510,6 +518,17 @@ impl RequestHandlerPipeline {
                         Type::TypeAlias(_) |
                         Type::Tuple(_) |
                         Type::Array(_) => {
+                            // `Copy` types can be taken by value any number of times:
+                            // this analysis doesn't concern them either.
+                            if crate::compiler::traits::assert_trait_is_implemented(
+                                krate_collection,
+                                &ty,
+                                &copy_trait,
+                            )
+                            .is_ok()
+                            {
+                                continue;
+                            }
                             type2info.entry(ty.clone()).or_default().consumed_by.push(ConsumerInfo { middleware_index: index, component_id });
                         }
                         // Scalars are trivially `Copy`, this analysis doesn't concern them.
